@@ -35,10 +35,6 @@ theorem setVar_abs (e : List (Bytes × List Char)) (n : Bytes) (v : List Char) :
 
 /-! ### the prompt never ends a proper prefix -/
 
-/-- decidable form of `OnlyAtEnd p (pre ++ p)` -/
-def noEarly (p pre : Bytes) : Bool :=
-  (List.range (pre.length + p.length)).all fun k => k == 0 || !(p.isSuffixOf ((pre ++ p).take k))
-
 theorem noEarly_sound {p pre : Bytes} (h : noEarly p pre = true) : OnlyAtEnd p (pre ++ p) := by
   refine ⟨List.suffix_append _ _, ?_⟩
   intro k hk hle hsuf
